@@ -253,8 +253,11 @@ def parse_L(tok):
     return [int(x, 16) for x in body.split(",")] if body else []
 
 
-def run_translator(root, name):
-    """runs tools/<name> (a source -> Gallina translator); returns None on success, else its error text"""
+def run_translator(root, name, group=None):
+    """runs tools/<name> (a source -> Gallina translator); returns None on success, else its error text.
+    group: the property being checked - a function the translator cannot handle counts as a failure only for the
+    property whose tie is about that function (the translator emits a stub for it, so that tie breaks)"""
     import subprocess, sys, os
-    p = subprocess.run([sys.executable, os.path.join(root, "tools", name)], stdout=subprocess.PIPE, stderr=subprocess.STDOUT)
+    p = subprocess.run([sys.executable, os.path.join(root, "tools", name)] + (["--for", group] if group else []),
+                       stdout=subprocess.PIPE, stderr=subprocess.STDOUT)
     return None if p.returncode == 0 else p.stdout.decode("utf-8", "replace")[-500:]
